@@ -277,7 +277,7 @@ var c06Sizes = func() []uint64 {
 }()
 
 func c06Extreme(c *mc.Ctx) ([]byte, string) {
-	kind := c.Pick("extreme", 7)
+	kind := c.Pick("extreme", 8)
 	switch kind {
 	case 0: // every type code with L=14 and a huge VarUInt length
 		t := byte(c.Shard("type", 15))
@@ -292,6 +292,40 @@ func c06Extreme(c *mc.Ctx) ([]byte, string) {
 			body = append([]byte{0xDE, 0x91, 0x84}, body...)
 		}
 		return append(append([]byte{}, refbin.BVM...), body...), fmt.Sprintf("type %x declared length %d nested=%d", t, n, nested)
+	case 7: // a child whose declared length runs from well inside to a few bytes beyond its parent's end,
+		// for every way of writing a length (inline, L=14 + VarUInt, the sorted-struct D1 form, padded VarUInt)
+		p := 2 + c.Shard("parent-len", 10)
+		child := c.Pick("child-form", 8)
+		x := c.Pick("child-len", 16)
+		parent := []byte{0xB0, 0xC0, 0xD0}[c.Pick("parent-kind", 3)]
+		var ch []byte
+		switch child {
+		case 0:
+			ch = []byte{0xD1, 0x80 | byte(x)}
+		case 1:
+			ch = []byte{0xD1, 0x00, 0x80 | byte(x)}
+		case 2:
+			ch = []byte{0xDE, 0x80 | byte(x)}
+		case 3:
+			ch = []byte{0xBE, 0x80 | byte(x)}
+		case 4:
+			ch = []byte{0x2E, 0x80 | byte(x)}
+		case 5:
+			ch = []byte{0x8E, 0x00, 0x80 | byte(x)}
+		case 6:
+			ch = []byte{0xB0 | byte(x%14)}
+		default:
+			ch = []byte{0xEE, 0x80 | byte(x), 0x81, 0x84}
+		}
+		body := append([]byte{}, ch...)
+		for len(body) < 24 {
+			body = append(body, 0x84, 0x20) // reads as field+int in a struct, as two small values elsewhere
+		}
+		if parent == 0xD0 {
+			body = append([]byte{0x84}, body...)
+		}
+		w := append([]byte{parent | byte(p)}, body...)
+		return append(append([]byte{}, refbin.BVM...), w...), fmt.Sprintf("child form %d declaring %d bytes inside a parent of %d", child, x, p)
 	case 6: // annotation wrappers whose three lengths (wrapper, annotation list, wrapped value) disagree,
 		// including the wrapped length that balances the books modulo 2^64
 		wl := uint64(c.Shard("wrapper-len", 15)) // 14 = VarUInt form
@@ -637,7 +671,7 @@ func init() {
 		ID:    "C06",
 		Title: "No input can crash, hang or exhaust memory in a Reader, Decoder or Unmarshal",
 		Rule: "inputs, all enumerated exhaustively: (a) the version marker followed by EVERY byte string of length <=2 and every length-3 string over a 48-tag alphabet (thorough: all 2^24), and EVERY text string of length <=3 (thorough 4) over a 37-character alphabet of grammar-significant bytes; (b) hostile symbol tables: 11 slots (symbols, symbols[i], imports, imports[i], name, version, max_id, duplicated fields, unknown fields, annotated slots) x 24 odd values (every typed null, wrong-typed scalars, negative/huge integers) in text and binary, followed by values using the affected IDs, each read without and with a catalog whose tables of those names are shorter or longer than the declared max_id; " +
-			"(c) extreme declared sizes: every type code with L=14 and VarUInt lengths up to 2^63+1 plus EVERY length in the last 48 below 2^64 (position+length wraps) at top level and nested, annotation wrappers whose wrapper length (0..13, VarUInt), annotation-list length (0..12), number of SID bytes present (0..11) and wrapped value disagree in every combination incl. wrapped lengths that balance modulo 2^64, at top level / in a list / in a struct, unterminated/overlong VarUInts, decimal and timestamp-fraction exponents and coefficients at int32/int64 boundaries, symbol IDs / max_id / version beyond int64, text exponents beyond int32, nesting to depth 5000; (d) every position of every seed document x byte substitutions (52 values quick, all 256 thorough) in both formats; (e) 1, 5 and 9 million opening brackets ([ ( {a:) under the skipping, Decoder and Unmarshal drivers, each in a process of its own (quick tier: 5 million [ under each driver and 9 million under the skipping one). " +
+			"(c) extreme declared sizes: every type code with L=14 and VarUInt lengths up to 2^63+1 plus EVERY length in the last 48 below 2^64 (position+length wraps) at top level and nested, annotation wrappers whose wrapper length (0..13, VarUInt), annotation-list length (0..12), number of SID bytes present (0..11) and wrapped value disagree in every combination incl. wrapped lengths that balance modulo 2^64, at top level / in a list / in a struct, a child written in each of 8 length forms declaring 0..15 bytes inside a list / sexp / struct of 2..11 bytes (from well inside to beyond the parent's end), unterminated/overlong VarUInts, decimal and timestamp-fraction exponents and coefficients at int32/int64 boundaries, symbol IDs / max_id / version beyond int64, text exponents beyond int32, nesting to depth 5000; (d) every position of every seed document x byte substitutions (52 values quick, all 256 thorough) in both formats; (e) 1, 5 and 9 million opening brackets ([ ( {a:) under the skipping, Decoder and Unmarshal drivers, each in a process of its own (quick tier: 5 million [ under each driver and 9 million under the skipping one). " +
 			"Each input under six drivers (full traversal calling ALL 18 accessors on every value, Next only, StepIn/StepOut/refused StepOut, Decoder.Decode loop, Unmarshal into interface{}, Unmarshal into each of 26 typed targets incl. named key/element/slice/byte types). Oracle: no panic (recovered and attributed), no worker death (case announced beforehand), at most 16*len+64 calls per driver (deterministic hang guard), heap allocation <= 1 MiB + 4 KiB per input byte. " +
 			"non-trivial = driver ran to completion under all guards; distinct = distinct (family, driver, progress) digests",
 		Bounds:       map[string]string{"quick": "binary len<=2 + 48^3; text len<=3; substitutions on seeds <=120 bytes, 52 values", "thorough": "binary len<=3 all bytes; text len<=4; all seeds, all 256 values"},
